@@ -122,3 +122,13 @@ package memtable
 //@   ensures[C01] forall k bstr :: !MTHas(p.active, k)
 //@   ensures[C01] len(p.immutables) == old(len(p.immutables)) + 1 && p.immutables[len(p.immutables) - 1] == old(p.active)
 //@   ensures[C01] forall i int :: 0 <= i && i < old(len(p.immutables)) ==> p.immutables[i] == old(p.immutables[i])
+
+// ---- C05: the tables handed to the merge are newest first: the active table, then the immutable tables from
+// the newest (last) to the oldest (first).
+//@ func (*MemTablePool).GetMemTables
+//@   requires lockstate(p.mu) == 0
+//@   ensures[C05,C01] len(result) == len(p.immutables) + 1 && result[0] == p.active
+//@   ensures[C05,C01] forall i int :: 0 <= i && i < len(p.immutables) ==> result[1 + i] == p.immutables[len(p.immutables) - 1 - i]
+//@ loop (*MemTablePool).GetMemTables#1
+//@   invariant[C05] 0 - 1 <= i && i < len(p.immutables) && len(result) == len(p.immutables) - i && len(result) >= 1 && result[0] == p.active
+//@   invariant[C05] forall j int :: 0 <= j && j < len(p.immutables) - 1 - i ==> result[1 + j] == p.immutables[len(p.immutables) - 1 - j]
